@@ -9,7 +9,29 @@ COMMON_ASSUME = [
     "Event interface contract (hypercorn.typing:Event) is what both EventWrapper classes implement (checked under C16)",
 ]
 
+HP = H2 + "H2Protocol."
+H2_UNITS = [HP + m for m in ("send_task", "_send_data", "handle", "stream_send", "_handle_events", "_flush", "_create_stream", "_window_updated",
+                             "_priority_updated", "_close_stream", "_create_server_push", "initiate", "idle")]
+LIB_H2 = ["assumed contract M_h2 for h2.connection.H2Connection 4.4.1 (pyvc/models_h2.py): which calls raise which exceptions, window arithmetic, event alphabet and what h2 guarantees about event fields",
+          "assumed contract M_prio for priority.PriorityTree 2.0 (pyvc/models_h2.py)"]
+
 PLAN = {
+    "C04": {
+        "units": H2_UNITS,
+        "trusted_base": LIB_H2,
+        "assumptions": COMMON_ASSUME + ["byte-level parsing of HTTP/2 frames is h2's; inputs range over everything the assumed h2 contract may return"],
+        "explanation": "no client input causes an internal error: generated run-time-exception obligations (no undeclared exception escapes) and class invariants I1/I2 over every event h2 may deliver",
+        "level_text": "For every function on the client-facing path, 'no exception other than the declared protocol switches escapes' is an obligation discharged for all events, states and await-level interleavings, against assumed contracts of h2/priority/h11/wsproto.",
+        "level_note": "Trusted: pyvc encoder; library models (event alphabets, which calls raise); byte-level parsing is the libraries' own. Known findings are excluded by obligation+path and demonstrated natively.",
+    },
+    "C09": {
+        "units": [HP + m for m in ("send_task", "_send_data", "_window_updated", "_priority_updated", "stream_send", "_create_stream")] + [SB + "pop", SB + "complete"],
+        "trusted_base": LIB_H2,
+        "assumptions": COMMON_ASSUME + ["scheduler fairness for 'as soon as the windows permit'"],
+        "explanation": "flow control respected (precondition of send_data), per-stream FIFO, invariants I1/I2 that keep the send task alive",
+        "level_text": "len(data) <= windows and frame size is a discharged obligation at the single send_data call site; FIFO and end-once are postconditions of StreamBuffer and _send_data; liveness is reduced to invariants I1/I2 (the send task cannot die) under fairness.",
+        "level_note": "Trusted: pyvc encoder; h2 window accounting as modelled; priority scheduling order not modelled; liveness only via safety surrogates.",
+    },
     "C08": {
         "units": [SB + m for m in ("__init__", "push", "pop", "drain", "set_complete", "close", "complete")],
         "trusted_base": [],
